@@ -320,3 +320,35 @@ func zzC13ViaSession() {
 	vAssert(*cancelp != nil, "C13.cancel-assigned-before-return")
 	zzC13Verify(zzC13S, thr, interval)
 }
+
+// zzC13PingIsSent: keep-alive counts what Ping reports. In EVERY lifecycle state of the session — nothing received yet,
+// initialize answered but not confirmed, fully initialized, a 2026-07-28 session — ServerSession.Ping (and
+// ClientSession.Ping) sends exactly one ping request and reports its outcome: a peer that has gone silent before
+// finishing the handshake misses pings like any other (otherwise it would never be closed).
+func zzC13PingIsSent() {
+	srv := &Server{}
+	var sent []string
+	peerAnswers := vBool("peerAnswers")
+	gone := errors.New("no answer")
+	srv.sendingMethodHandler_ = func(ctx context.Context, method string, req Request) (Result, error) {
+		sent = append(sent, method)
+		if !peerAnswers {
+			return nil, gone
+		}
+		return &emptyResult{}, nil
+	}
+	ss := &ServerSession{server: srv}
+	switch vChoice("lifecycle", 4) {
+	case 1:
+		ss.state.InitializeParams = &InitializeParams{ProtocolVersion: protocolVersion20250618}
+	case 2:
+		ss.state.InitializeParams = &InitializeParams{ProtocolVersion: protocolVersion20250618}
+		ss.state.InitializedParams = &InitializedParams{}
+	case 3:
+		ss.state.InitializeParams = &InitializeParams{ProtocolVersion: protocolVersion20260728}
+	}
+	err := ss.Ping(context.Background(), nil)
+	vAssert(len(sent) == 1 && sent[0] == methodPing, "C13.ping-is-sent-in-every-lifecycle-state")
+	vAssert((err == nil) == peerAnswers, "C13.ping-reports-what-the-peer-did")
+	vReach("end")
+}
